@@ -162,6 +162,14 @@ func (p PolicyT) toK8s() *networkv1.NetworkPolicy {
 			}
 			ports = append(ports, k)
 		}
+		// a missing list and a present but empty list mean the same ("all peers" / "all ports"); objects built in Go (typed
+		// clients, fakes, deep copies) carry either form, so both are produced (which one follows from the rule's own shape)
+		if len(r.Peers) == 0 && len(r.Ports)%2 == 1 {
+			peers = []networkv1.NetworkPolicyPeer{}
+		}
+		if len(r.Ports) == 0 && len(r.Peers)%2 == 1 {
+			ports = []networkv1.NetworkPolicyPort{}
+		}
 		return peers, ports
 	}
 	for _, r := range p.Ingress {
